@@ -21,7 +21,7 @@ if [ -f $S/demo.elk ]; then
   fi
 fi
 for c in $checks; do
-  ( cd /verif && VERIF_REPO=$E ./check $c quick > $S/check_$c.log 2>&1 ); rc=$?
+  ( cd /verif && VERIF_SHRINKTIME=5s VERIF_NO_MINIMIZE=1 VERIF_REPO=$E ./check $c quick > $S/check_$c.log 2>&1 ); rc=$?
   echo "check $c quick on patched tree: exit=$rc $(grep "^\[$c" $S/check_$c.log | tail -1)" >> $res
   grep "^VIOLATION" $S/check_$c.log | head -3 >> $res
 done
